@@ -21,8 +21,23 @@ Section Grid.
   Let F := make_trunk indep R.
   Let G := compute shape (AdjGrid per) vals minv cs.
 
-  Lemma G_eq : G = relabel_forest F.
+  Lemma G_eq : G = sort_by tid (relabel_forest F).
   Proof. reflexivity. Qed.
+
+  Lemma G_fnodes : Permutation (fnodes G) (fnodes (relabel_forest F)).
+  Proof. rewrite G_eq. unfold fnodes. apply Permutation_flat_map, sort_by_perm. Qed.
+  Lemma G_fregion : Permutation (fregion G) (fregion (relabel_forest F)).
+  Proof. rewrite G_eq. unfold fregion. apply Permutation_flat_map, sort_by_perm. Qed.
+  Lemma G_fnodes_In u : In u (fnodes G) <-> In u (fnodes (relabel_forest F)).
+  Proof. split; apply Permutation_in; [|symmetry]; apply G_fnodes. Qed.
+  Lemma G_fregion_In p : In p (fregion G) <-> In p (fregion (relabel_forest F)).
+  Proof. split; apply Permutation_in; [|symmetry]; apply G_fregion. Qed.
+
+  (* F35: the trunk of the computed dendrogram is in the order of the final identifiers *)
+  Theorem grid_trunk_sorted : StronglySorted (key_le tid) G.
+  Proof. rewrite G_eq. apply sort_by_sorted. Qed.
+  Theorem grid_trunk_resort : sort_by tid G = G.
+  Proof. apply sort_by_of_sorted, grid_trunk_sorted. Qed.
 
   Lemma Hnd : NoDup (map fst order).
   Proof. apply order_of_NoDup. Qed.
@@ -40,7 +55,7 @@ Section Grid.
     (exists v i, nth_error vals i = Some (Some v) /\ p = Z.of_nat i /\ above minv v = true) /\
     ~ exists r, In r R /\ In p (region r) /\ dropped indep r.
   Proof.
-    rewrite G_eq, relabel_forest_fregion.
+    rewrite G_fregion_In, relabel_forest_fregion.
     unfold F, R. rewrite (assigned_iff adj indep order Hnd Hsorted Hsym p).
     assert (Hpix : In p (map fst order) <->
                    exists v i, nth_error vals i = Some (Some v) /\ p = Z.of_nat i /\ above minv v = true).
@@ -53,13 +68,14 @@ Section Grid.
 
   Theorem grid_pixels_distinct : NoDup (fregion G).
   Proof.
-    rewrite G_eq, relabel_forest_fregion. apply (trunk_NoDup adj indep order Hnd Hsorted Hsym).
+    apply (Permutation_NoDup (Permutation_sym G_fregion)).
+    rewrite relabel_forest_fregion. apply (trunk_NoDup adj indep order Hnd Hsorted Hsym).
   Qed.
 
   Lemma G_node_inv u :
     In u (fnodes G) -> exists u0, In u0 (fnodes F) /\ regionv u = regionv u0 /\ region u = region u0.
   Proof.
-    rewrite G_eq, relabel_forest_fnodes. intros H. apply in_map_iff in H. destruct H as [u0 [<- H0]].
+    rewrite G_fnodes_In, relabel_forest_fnodes. intros H. apply in_map_iff in H. destruct H as [u0 [<- H0]].
     exists u0. split; [exact H0|]. split; [apply relabel_regionv | apply relabel_region].
   Qed.
 
@@ -86,7 +102,8 @@ Section Grid.
   Theorem grid_ids_exact :
     Permutation (map tid (fnodes G)) (zseq (length (fnodes G))).
   Proof.
-    rewrite G_eq. rewrite relabel_forest_fnodes at 2. rewrite map_length.
+    rewrite (Permutation_length G_fnodes). rewrite (Permutation_map tid G_fnodes).
+    rewrite relabel_forest_fnodes at 2. rewrite map_length.
     apply relabel_ids_exact. apply smalls_distinct.
     - apply (trunk_NoDup adj indep order Hnd Hsorted Hsym).
     - apply (trunk_own adj indep order Hnd Hsorted Hsym).
@@ -95,7 +112,7 @@ Section Grid.
   (* C02: every branch of the computed dendrogram has at least two children *)
   Theorem grid_arity u : In u (fnodes G) -> tkids u = [] \/ (2 <= length (tkids u))%nat.
   Proof.
-    rewrite G_eq, relabel_forest_fnodes. intros H. apply in_map_iff in H. destruct H as [u0 [<- H0]].
+    rewrite G_fnodes_In, relabel_forest_fnodes. intros H. apply in_map_iff in H. destruct H as [u0 [<- H0]].
     pose proof (trunk_arity adj indep order Hnd Hsorted Hsym) as Har. rewrite Forall_forall in Har.
     destruct (Har u0 H0) as [E|E].
     - left. rewrite relabel_kids, E. reflexivity.
